@@ -76,9 +76,12 @@ func c13DecodeDiag(doc []byte) (out string, d cedar.Diagnostic) {
 	return
 }
 
-func c13DecodeDecision(text []byte) (out string) {
+func c13DecodeDecision(text []byte) (out string) { return c13DecodeDecisionInto(cedar.Deny, text) }
+
+// c13DecodeDecisionInto: json.Unmarshal into a Decision variable that holds recv before the call.
+func c13DecodeDecisionInto(recv cedar.Decision, text []byte) (out string) {
 	if pn := vh.Protect(func() {
-		var d cedar.Decision
+		d := recv
 		if err := json.Unmarshal(text, &d); err != nil {
 			out = "err"
 			return
@@ -183,43 +186,79 @@ func c13SecondRound(c *vh.Ctx, g *vh.Gen, b *vh.Batch) {
 		if tag == "duplicate-uid" {
 			c.Res.OracleChecks++
 			if em2 != nil {
-				// strict oracle: a document naming one UID twice cannot be the encoding of any entity map and drops
-				// an entity silently when accepted
-				last := map[string]any{}
-				for _, x := range docTree.([]any) {
-					u := x.(map[string]any)["uid"].(map[string]any)
-					last[u["type"].(string)+"\x00"+u["id"].(string)] = x
-				}
-				lastWins := len(em2) == len(last)
-				for _, x := range last {
-					u := x.(map[string]any)["uid"].(map[string]any)
-					e, ok := em2[types.NewEntityUID(types.EntityType(u["type"].(string)), types.String(u["id"].(string)))]
-					_, isDup := x.(map[string]any)["attrs"].(map[string]any)["dup"]
-					_, hasDup := e.Attributes.Get("dup")
-					lastWins = lastWins && ok && isDup == (hasDup && e.Attributes.Len() == 1)
-				}
-				if !lastWins {
-					c.Report(vh.Finding{Class: "witness-drift", What: "duplicate UIDs in an entity array are no longer resolved as 'the last entry wins' (C13_entitymap_duplicate_uid_last_wins): " + out, Check: "oracle", Op: "emjson-reencode", Input: string(doc)})
-				}
-				c.Report(vh.Finding{Class: "entitymap-duplicate-uid-last-wins", What: fmt.Sprintf("an entity array with two entries for one UID is accepted; the earlier entry is dropped silently (%d entries -> %d entities): %s", len(docTree.([]any)), len(em2), trunc(string(doc), 400)), Check: "oracle", Op: "emjson-reencode", Input: string(doc), Expected: "err", Actual: trunc(out, 300)})
+				// strict oracle (C13_entitymap_decode_rejects_duplicates): a document naming one UID twice cannot be the
+				// encoding of any entity map; accepting it means one of the two entries is dropped silently
+				c.Report(vh.Finding{Class: "entitymap-duplicate-uid-last-wins", What: fmt.Sprintf("an entity array with two entries for one UID is accepted; one entry is dropped silently (%d entries -> %d entities): %s", len(docTree.([]any)), len(em2), trunc(string(doc), 400)), Check: "oracle", Op: "emjson-reencode", Input: string(doc), Expected: "err", Actual: trunc(out, 300)})
 			}
+		}
+		if tag == "own-encoding" && len(arr) > 1 {
+			// the decoder does not depend on the order of the array (C13_entitymap_decode_rejects_duplicates, second half):
+			// the own encoding with its members shuffled decodes to the same map
+			c.Res.OracleChecks++
+			sh := append([]any{}, arr...)
+			g.R.Shuffle(len(sh), func(a, b int) { sh[a], sh[b] = sh[b], sh[a] })
+			shDoc := vh.SortedJSON(sh)
+			shOut, _ := c13Reencode(shDoc)
+			if shOut != out {
+				c.Report(vh.Finding{Class: "entitymap-json-roundtrip", What: "an entity map's own encoding with the array members shuffled decodes differently: " + trunc(shOut, 300), Check: "oracle", Op: "emjson-reencode", Input: string(shDoc), Expected: trunc(out, 300), Actual: trunc(shOut, 300)})
+			}
+			c13AddDoc(c, b, "emjson-reencode", sh, shDoc, nil, shOut, "own-encoding-shuffled")
 		}
 	}
 
-	// witness of C13_entitymap_duplicate_uid_counterexample, replayed on the Go code and through the model
+	// regression witness of the repaired finding entitymap-duplicate-uid-last-wins (regression `example` next to
+	// C13_entitymap_decode_rejects_duplicates), replayed on the Go code and through the model: must be refused; the same
+	// two entities under different UIDs must be accepted in either order
 	{
 		c.Res.OracleChecks++
 		doc := []byte(`[{"attrs":{"k":1},"parents":[],"tags":{},"uid":{"id":"x","type":"A"}},{"attrs":{"k":2},"parents":[],"tags":{},"uid":{"id":"x","type":"A"}}]`)
 		out, em := c13Reencode(doc)
-		e, ok := em[types.NewEntityUID("A", "x")]
-		k, _ := e.Attributes.Get("k")
-		if len(em) != 1 || !ok || k != types.Long(2) {
-			c.Report(vh.Finding{Class: "witness-drift", What: "witness of C13_entitymap_duplicate_uid_counterexample: Go no longer decodes the two-entry document to the single entity with k = 2 (the defect may have been repaired: update model, theorem and known_findings): " + out, Check: "oracle", Op: "emjson-reencode", Input: string(doc)})
-		} else {
-			c.Report(vh.Finding{Class: "entitymap-duplicate-uid-last-wins", What: "witness of C13_entitymap_duplicate_uid_counterexample: two entries for A::\"x\" are accepted, the first (k = 1) is dropped", Check: "oracle", Op: "emjson-reencode", Input: string(doc), Expected: "err", Actual: out})
+		if out != "err" {
+			c.Report(vh.Finding{Class: "entitymap-duplicate-uid-last-wins", What: fmt.Sprintf("two entries for A::\"x\" are accepted (%d entities kept), one of them is dropped silently", len(em)), Check: "oracle", Op: "emjson-reencode", Input: string(doc), Expected: "err", Actual: out})
 		}
 		tree, _ := vh.GenericDecode(doc)
 		c13AddDoc(c, b, "emjson-reencode", tree, doc, nil, out, "witness")
+		for _, d2 := range []string{
+			`[{"attrs":{"k":1},"parents":[],"tags":{},"uid":{"id":"y","type":"A"}},{"attrs":{"k":2},"parents":[],"tags":{},"uid":{"id":"x","type":"A"}}]`,
+			`[{"attrs":{"k":2},"parents":[],"tags":{},"uid":{"id":"x","type":"A"}},{"attrs":{"k":1},"parents":[],"tags":{},"uid":{"id":"y","type":"A"}}]`,
+			// look-alike UIDs are different UIDs: equal Type+ID concatenations, ids holding '::'
+			`[{"attrs":{},"parents":[],"tags":{},"uid":{"id":"bc","type":"A"}},{"attrs":{},"parents":[],"tags":{},"uid":{"id":"c","type":"Ab"}},{"attrs":{},"parents":[],"tags":{},"uid":{"id":"B::c","type":"A"}},{"attrs":{},"parents":[],"tags":{},"uid":{"id":"c","type":"A::B"}}]`,
+			// the same UID in two spellings of the uid member (implicit and explicit __entity) is still the same UID
+			`[{"attrs":{},"parents":[],"tags":{},"uid":{"id":"x","type":"A"}},{"attrs":{},"parents":[],"tags":{},"uid":{"__entity":{"id":"x","type":"A"}}}]`,
+			// three entries, the repeated pair not adjacent; two null members (both decode to the zero UID)
+			`[{"attrs":{},"parents":[],"tags":{},"uid":{"id":"x","type":"A"}},{"attrs":{},"parents":[],"tags":{},"uid":{"id":"y","type":"A"}},{"attrs":{"z":true},"parents":[],"tags":{},"uid":{"id":"x","type":"A"}}]`,
+			`[null,null]`, `[null]`, `[{},{"uid":{"id":"","type":""}}]`,
+		} {
+			c.Res.OracleChecks++
+			o2, em2 := c13Reencode([]byte(d2))
+			t2, err := vh.GenericDecode([]byte(d2))
+			if err != nil {
+				panic("c13 entity-map table: " + d2)
+			}
+			// independent count of the distinct (type, id) pairs named by the document
+			seen, dup := map[[2]string]bool{}, false
+			for _, x := range t2.([]any) {
+				var key [2]string
+				if m, ok := x.(map[string]any); ok {
+					if u, ok := m["uid"].(map[string]any); ok {
+						if in, ok := u["__entity"].(map[string]any); ok {
+							u = in
+						}
+						key[0], _ = u["type"].(string)
+						key[1], _ = u["id"].(string)
+					}
+				}
+				dup = dup || seen[key]
+				seen[key] = true
+			}
+			switch {
+			case dup && o2 != "err":
+				c.Report(vh.Finding{Class: "entitymap-duplicate-uid-last-wins", What: fmt.Sprintf("an entity array naming one UID twice is accepted (%d members -> %d entities)", len(t2.([]any)), len(em2)), Check: "oracle", Op: "emjson-reencode", Input: d2, Expected: "err", Actual: trunc(o2, 300)})
+			case !dup && (!strings.HasPrefix(o2, "ok ") || len(em2) != len(t2.([]any))):
+				c.Report(vh.Finding{Class: "entitymap-json-roundtrip", What: fmt.Sprintf("an entity array with pairwise different UIDs does not decode to one entity per member (%d members -> %d entities): %s", len(t2.([]any)), len(em2), trunc(o2, 300)), Check: "oracle", Op: "emjson-reencode", Input: d2})
+			}
+			c13AddDoc(c, b, "emjson-reencode", t2, vh.SortedJSON(t2), nil, o2, "table")
+		}
 		c.Dist("witness-replayed")
 	}
 
@@ -292,7 +331,7 @@ func c13SecondRound(c *vh.Ctx, g *vh.Gen, b *vh.Batch) {
 		c.Dist("witness-replayed")
 	}
 
-	// ---- C. decisions: the decoder looks at the raw bytes of the value ----
+	// ---- C. decisions: decoded from the text of the value, into a fresh and into a reused receiver ----
 	decisionTexts := []string{`"allow"`, `"deny"`, ` "allow" `, "\n\t\"deny\"\r\n", `"Allow"`, `"ALLOW"`, `"Deny"`, `"allow "`, `" allow"`, `"\u0061llow"`, `"a\u006clow"`, `"allo\u0077"`, `"\u0064eny"`, `"den\u0079"`, `"\u0041llow"`,
 		`"permit"`, `"forbid"`, `"true"`, `""`, `"nosuch"`, `null`, `true`, `false`, `1`, `0`, `1.5`, `{}`, `[]`, `["allow"]`, `{"decision":"allow"}`, `"\"allow\""`, `allow`, `"allow`, ``, `'allow'`, `"allow" "deny"`}
 	for i, n := 0, c.N(60, 3000); i < n; i++ {
@@ -320,16 +359,31 @@ func c13SecondRound(c *vh.Ctx, g *vh.Gen, b *vh.Batch) {
 			}
 		case isStr && (s == "allow" || s == "deny"):
 			if out != "ok "+s {
-				c.Report(vh.Finding{Class: "decision-escaped-spelling", What: fmt.Sprintf("the JSON string %s denotes %q but Decision.UnmarshalJSON compares the raw bytes with \"allow\" and decodes it to %s", text, s, out), Check: "oracle", Op: "decision-decode", Input: text, Expected: "ok " + s, Actual: out})
+				c.Report(vh.Finding{Class: "decision-escaped-spelling", What: fmt.Sprintf("the JSON string %s denotes %q but Decision.UnmarshalJSON decodes it to %s (two spellings of one datum must decode alike)", text, s, out), Check: "oracle", Op: "decision-decode", Input: text, Expected: "ok " + s, Actual: out})
 			}
 		case tree == nil:
-			// null: encoding/json's convention for Unmarshalers is a no-op (the zero value, Deny, stays); an error is fine too
-			if out != "err" && out != "ok deny" {
-				c.Report(vh.Finding{Class: "decision-unknown-accepted", What: "null decodes to " + out, Check: "oracle", Op: "decision-decode", Input: text, Expected: "err or no-op", Actual: out})
+			// null: encoding/json's convention for Unmarshalers is a no-op (the receiver keeps what it held); an error is fine too
+			if outA := c13DecodeDecisionInto(cedar.Allow, []byte(text)); (out != "err" && out != "ok deny") || (outA != "err" && outA != "ok allow") {
+				c.Report(vh.Finding{Class: "decision-unknown-accepted", What: "null is not a decision: decoding it into a receiver holding Deny gives " + out + ", into one holding Allow gives " + outA, Check: "oracle", Op: "decision-decode", Input: text, Expected: "err or no-op", Actual: out + " / " + outA})
 			}
 		default:
 			if out != "err" {
-				c.Report(vh.Finding{Class: "decision-unknown-accepted", What: fmt.Sprintf("Decision.UnmarshalJSON never fails: %s (not a decision) decodes to %s without an error", trunc(text, 80), out), Check: "oracle", Op: "decision-decode", Input: text, Expected: "err", Actual: out})
+				c.Report(vh.Finding{Class: "decision-unknown-accepted", What: fmt.Sprintf("%s is not a decision but Decision.UnmarshalJSON decodes it to %s without an error", trunc(text, 80), out), Check: "oracle", Op: "decision-decode", Input: text, Expected: "err", Actual: out})
+			}
+		}
+		// reused receiver: the same text decoded into a variable that already holds Allow — through the model too; apart
+		// from null the outcome must not depend on what the receiver held
+		{
+			c.Res.OracleChecks++
+			outA := c13DecodeDecisionInto(cedar.Allow, []byte(text))
+			idx := b.Add("decision-decode", map[string]any{"text": vh.Hex(text), "recv": true}, outA, "reused-receiver")
+			c.Count(b.Key(idx), true)
+			if gerr == nil && tree != nil && outA != out {
+				cls := "decision-receiver-dependent"
+				if !(isStr && (s == "allow" || s == "deny")) {
+					cls = "decision-unknown-accepted" // only an accepted non-decision can differ: an error leaves the receiver alone
+				}
+				c.Report(vh.Finding{Class: cls, What: fmt.Sprintf("%s decodes to %s into a fresh Decision but to %s into one holding Allow", trunc(text, 80), out, outA), Check: "oracle", Op: "decision-decode", Input: text, Expected: out, Actual: outA})
 			}
 		}
 		// the model's reading of string tokens (jsonStringToken), tied to encoding/json
@@ -343,11 +397,12 @@ func c13SecondRound(c *vh.Ctx, g *vh.Gen, b *vh.Batch) {
 			c.Count(b.Key(idx), true)
 		}
 	}
-	// witnesses of C13_decision_unknown_accepted_counterexample / C13_decision_escaped_spelling_counterexample
-	for _, w := range []struct{ thm, text string }{{"C13_decision_unknown_accepted_counterexample", `"permit"`}, {"C13_decision_escaped_spelling_counterexample", `"\u0061llow"`}} {
+	// regression witnesses of the repaired findings decision-unknown-accepted / decision-escaped-spelling (regression
+	// `example`s next to C13_decision_decode_rejects_iff / C13_decision_decode_exact), replayed on the Go code
+	for _, w := range []struct{ class, text, want string }{{"decision-unknown-accepted", `"permit"`, "err"}, {"decision-escaped-spelling", `"\u0061llow"`, "ok allow"}} {
 		c.Res.OracleChecks++
-		if out := c13DecodeDecision([]byte(w.text)); out != "ok deny" {
-			c.Report(vh.Finding{Class: "witness-drift", What: fmt.Sprintf("witness of %s: Go decodes %s to %s, the theorem says Deny without an error (the defect may have been repaired: update model, theorem and known_findings)", w.thm, w.text, out), Check: "oracle", Op: "decision-decode", Input: w.text, Expected: "ok deny", Actual: out})
+		if out := c13DecodeDecision([]byte(w.text)); out != w.want {
+			c.Report(vh.Finding{Class: w.class, What: fmt.Sprintf("regression witness: Go decodes %s to %s", w.text, out), Check: "oracle", Op: "decision-decode", Input: w.text, Expected: w.want, Actual: out})
 		}
 		c.Dist("witness-replayed")
 	}
